@@ -18,8 +18,9 @@ from typing import Any, Dict, List, Optional, Tuple
 from sim import compare, gen, refs
 from sim.launch import VERIF, HarnessError, Runner, tealer_src
 
-REPLAYS = os.path.join(VERIF, "replays")
-EVIDENCE = os.path.join(VERIF, "evidence")
+# overridable so that self-tests against scratch copies never touch the committed evidence
+REPLAYS = os.environ.get("SIM_REPLAY_DIR") or os.path.join(VERIF, "replays")
+EVIDENCE = os.environ.get("SIM_EVIDENCE_DIR") or os.path.join(VERIF, "evidence")
 KNOWN = os.path.join(VERIF, "known_findings.json")
 
 LEVEL = {"C12": "exploration", "C14": "exploration", "C18": "fault_enumeration"}
@@ -88,6 +89,7 @@ class Check:
         self.samples: List[Any] = []
         self._alt_checked: set = set()
         self._seen_presigs: Dict[str, int] = {}
+        self.replaying = False
 
     # ------------------------------------------------------------------ reference phase
     def reference_phase(self, need_sites: bool = True) -> None:
@@ -208,7 +210,8 @@ class Check:
                     for key, path in sorted(op["paths"].items()):
                         self.refs.need(("build", op["cmap"][key.split("/")[0]], tuple(path)))
         if self.refs.pending:
-            problems = self.refs.compute(timeout=900, alt_pct=25 if self.tier == "quick" else 100)
+            alt_pct = 0 if self.replaying else (25 if self.tier == "quick" else 100)
+            problems = self.refs.compute(timeout=900, alt_pct=alt_pct)
             for k, why in problems:
                 self.harness_problems.append(f"reference {k}: {why}")
             # every reference computed a second time (another hash seed, S1 reversed) must agree
@@ -533,6 +536,9 @@ class Check:
             "harness_problems": self.harness_problems[:10],
             "exhaustive": False,
         }
+        for k in ("sweep_pairwise", "sweep_fault_sites", "sweep_all_paths"):
+            if k in st:
+                cov[k] = st[k]
         if extra_cov:
             cov.update(extra_cov)
         ev = {
@@ -590,6 +596,7 @@ def replay(path: str, runner: Optional[Runner] = None, quiet: bool = False) -> i
 
         return c18.replay(path, viol, runner, quiet)
     chk = Check(prop, viol.get("tier", "quick"), int(viol.get("seed", 0)))
+    chk.replaying = True
     if runner is not None:
         chk.runner.close()
         chk.runner = runner
